@@ -75,6 +75,7 @@ func resultNames(spec *FuncSpec, sig *types.Signature) []string {
 func (e *Engine) verifyFunction(fn *ssa.Function, spec *FuncSpec, sweep bool) *FnCtx {
 	c := e.newFnCtx(fn, spec)
 	c.sweep = sweep
+	c.blockCanaries = e.blockCanaries
 	defer func() {
 		if r := recover(); r != nil {
 			if se, ok := r.(specErr); ok {
@@ -182,6 +183,14 @@ func (e *Engine) verifyFunction(fn *ssa.Function, spec *FuncSpec, sweep bool) *F
 	if len(exits) == 0 {
 		c.note("function has no reachable return")
 	} else {
+		if len(exits) > 1 {
+			// vacuity: every return must be reachable under the contract and the callee contracts used
+			for i, ex := range exits {
+				o := c.oblige("canary", fmt.Sprintf("path%d", i), ex.cond, "false", c.eng.posOf(fn.Pos()), "vacuity canary for one return path", nil)
+				o.Canary = true
+				o.Mark = c.sc.mark()
+			}
+		}
 		c.atReturn(fr, c.mergeExits(fr, exits), 0, 1)
 	}
 	return c
@@ -643,6 +652,10 @@ func (c *FnCtx) modTargets(env *Env, exprs []*Expr, pos string) []modTarget {
 				}
 			case m.Op == "id" && strings.HasPrefix(m.Name, "$"):
 				out = append(out, modTarget{kind: "ghostvar", name: m.Name})
+			case m.Op == "call" && m.Name == "once":
+				l := env.evalLoc(m.Args[0])
+				p, _ := pathString(l.Root, l.Path)
+				out = append(out, modTarget{kind: "once", prefix: "ONCE:" + typeKey(l.Root) + p, ref: l.Base})
 			case m.Op == "call" && m.Name == "chan":
 				v := env.eval(m.Args[0])
 				out = append(out, modTarget{kind: "chan", ref: v.T})
@@ -712,6 +725,12 @@ func (c *FnCtx) havocTargets(st *State, ts []modTarget) {
 			card := c.sc.fresh("mod."+mc, "Int")
 			c.sc.assert("(>= " + card + " 0)")
 			c.heapStore(st, mc, arrSort("Int"), t.ref, card)
+		case "once":
+			a := c.heapGet(st, t.prefix, arrSort("Bool"))
+			nv := c.sc.fresh("mod.once", "Bool")
+			// a once flag never goes back
+			c.sc.assert(sImp("(select "+a+" "+t.ref+")", nv))
+			c.heapStore(st, t.prefix, arrSort("Bool"), t.ref, nv)
 		case "ghostfield":
 			c.heapStore(st, t.prefix, arrSort(t.name), t.ref, c.sc.fresh("mod."+t.prefix, t.name))
 		case "ghostvar":
